@@ -299,6 +299,24 @@ class Paths:
         self.req = wsdlkit.client(w, nosend=True)
         self.req_pretty = wsdlkit.client(w, nosend=True, prettyxml=True)
         self.rep = wsdlkit.client(w)
+        w2 = wsdlkit.wsdl_doc('<xsd:element name="g"><xsd:complexType><xsd:sequence><xsd:any/></xsd:sequence>'
+                              '</xsd:complexType></xsd:element>', "g", None, op="g")
+        self.raw = wsdlkit.client(w2, nosend=True)
+        self.raw_pretty = wsdlkit.client(w2, nosend=True, prettyxml=True)
+
+    def request_raw(self, s, pretty=False):
+        """The string inside a ready-made sax Element handed over as the argument (text and an attribute)."""
+        from suds.sax.element import Element
+        e = Element("x")
+        e.setText(s)
+        e.set("k", s)
+        env = wsdlkit.envelope_bytes((self.raw_pretty if pretty else self.raw).service.g(e))
+        try:
+            root = xmlread.parse(env)
+        except xmlread.XmlError as x:
+            return ("!malformed: %s" % x, None)
+        xs = [n for n in xmlread.walk(root) if n["name"][1] == "x"]
+        return (xs[0]["text"], xs[0]["attrs"].get((None, "k"))) if xs else (None, None)
 
     def request(self, s, pretty=False):
         c = self.req_pretty if pretty else self.req
@@ -316,8 +334,12 @@ class Paths:
 
     def reply(self, rng, s, soap12=False, enc=None):
         envns = xmlread.ENV12 if soap12 else xmlread.ENV11
-        body = "<r>%s</r><o k=\"%s\"/><v a=\"1\">%s</v>" % (write_encoded(rng, s, False), write_encoded(rng, s, True),
-                                                          write_encoded(rng, s, False))
+        # (an element that says it is NOT nil - xsi:nil false / 0 - holds its text like any other; an attribute of a
+        # W3C vocabulary other than XML Schema - xlink:title - is an attribute like any other)
+        notnil = rng.choice(["", "", ' xmlns:xsi="%s" xsi:nil="false"' % xmlread.XSI, ' xmlns:xsi="%s" xsi:nil="0"' % xmlread.XSI])
+        body = "<r%s>%s</r><o k=\"%s\"/><v a=\"1\" xmlns:xlink=\"http://www.w3.org/1999/xlink\" xlink:title=\"%s\">%s</v>" % (
+            notnil, write_encoded(rng, s, False), write_encoded(rng, s, True), write_encoded(rng, s, True),
+            write_encoded(rng, s, False))
         doc = ('<e:Envelope xmlns:e="%s"><e:Body><fResponse xmlns="%s">%s</fResponse></e:Body></e:Envelope>'
                % (envns, wsdlkit.TNS, body))
         # the reply says which encoding it is in: UTF-8 (declared or not), UTF-16, ISO-8859-1 where it can hold the text
@@ -344,6 +366,8 @@ class Paths:
         r = getattr(res, "r", None)
         k = getattr(getattr(res, "o", None), "_k", None)
         v = getattr(getattr(res, "v", None), "value", None)
+        title = getattr(getattr(res, "v", None), "_title", None)
+        self.last_title = None if title is None else str(title)
         return doc, (None if r is None else str(r), None if k is None else str(k), None if v is None else str(v))
 
 
@@ -402,6 +426,14 @@ def check_string(ctx, paths, s, model, deep):
         if att != s:
             ctx.fail("request attribute value not recovered", inp, att, s, direction="request", position="attr",
                      path="envelope pretty=%s" % pretty)
+        txt, att = paths.request_raw(s, pretty)
+        ctx.case(("req-raw", pretty, s), nontrivial)
+        if txt != s:
+            ctx.fail("request element text not recovered", inp, txt, s, direction="request", position="text",
+                     path="envelope raw element pretty=%s" % pretty)
+        if att != s:
+            ctx.fail("request attribute value not recovered", inp, att, s, direction="request", position="attr",
+                     path="envelope raw element pretty=%s" % pretty)
     # 4. oracle: reply written by an independent writer
     if s and s.strip(" \t\n\r") == s or True:
         for soap12 in (False, True):
@@ -413,6 +445,9 @@ def check_string(ctx, paths, s, model, deep):
                 ctx.fail("reply element text not decoded to the document's string", {"s": s},
                          "%s: %s" % (type(e).__name__, e), s, direction="reply", position="text")
                 continue
+            if paths.last_title != s:
+                ctx.fail("reply attribute value not decoded to the document's string",
+                         {"s": s, "attribute": "xlink:title"}, paths.last_title, s, direction="reply", position="attr")
             if v != s and not (s == "" and v in (None, "")):
                 ctx.fail("text of a reply element that also carries an attribute is not decoded to the document's string",
                          {"s": s, "doc": doc.decode("utf-8", "replace") if not doc.startswith((b"\xff\xfe", b"\xfe\xff")) else doc.decode("utf-16", "replace")}, v, s, direction="reply", position="text+attr")
